@@ -252,10 +252,16 @@ def dump(module, path, **kwargs):
     except TypeError:
         # Not an os.PathLike, maybe it is an already-opened file object
         try:
+            text = dumps(module, **kwargs)
             if isinstance(path, io.TextIOBase):
-                return path.write(dumps(module, **kwargs))
+                return path.write(text)
             else:
-                return path.write(dumps(module, **kwargs).encode())
+                try:
+                    return path.write(text.encode())
+                except TypeError:
+                    # A text stream that is not an io.TextIOBase
+                    # (codecs.open(), tempfile.SpooledTemporaryFile, ...).
+                    return path.write(text)
         except AttributeError:
             # Not a path, not an already-opened file.
             raise TypeError(
